@@ -1,0 +1,74 @@
+//! Verification hooks. Compiled only under `cfg(kani)` (set by `cargo kani`, never by an
+//! ordinary build): re-exports of crate-private items for out-of-tree proof harnesses, and
+//! atomics that announce a scheduling point to a harness-installed hook before every
+//! operation and then perform the real `std::sync::atomic` operation.
+
+pub use crate::atomic_arena::AtomicArena;
+pub use crate::atomic_arena::Ref;
+pub use crate::atomic_arena::Zero;
+pub use crate::sharded_set::InsertLock;
+pub use crate::sharded_set::ShardedSet;
+pub use crate::small_bytes::SmallBytes;
+
+pub mod sync {
+    use std::sync::atomic::Ordering;
+
+    /// Called before every atomic operation of `atomic_arena` with a site code.
+    pub static mut YIELD_HOOK: Option<fn(u32)> = None;
+
+    pub const SITE_U32_LOAD: u32 = 1;
+    pub const SITE_U32_STORE: u32 = 2;
+    pub const SITE_U32_FETCH_ADD: u32 = 3;
+    pub const SITE_PTR_LOAD: u32 = 4;
+    pub const SITE_PTR_STORE: u32 = 5;
+
+    #[inline(never)]
+    fn yield_point(site: u32) {
+        #[allow(static_mut_refs)]
+        unsafe {
+            if let Some(h) = YIELD_HOOK {
+                h(site)
+            }
+        }
+    }
+
+    pub struct AtomicU32(std::sync::atomic::AtomicU32);
+
+    impl AtomicU32 {
+        pub const fn new(v: u32) -> Self {
+            AtomicU32(std::sync::atomic::AtomicU32::new(v))
+        }
+        pub fn load(&self, o: Ordering) -> u32 {
+            yield_point(SITE_U32_LOAD);
+            self.0.load(o)
+        }
+        pub fn store(&self, v: u32, o: Ordering) {
+            yield_point(SITE_U32_STORE);
+            self.0.store(v, o)
+        }
+        pub fn fetch_add(&self, v: u32, o: Ordering) -> u32 {
+            yield_point(SITE_U32_FETCH_ADD);
+            self.0.fetch_add(v, o)
+        }
+    }
+
+    pub struct AtomicPtr<T>(std::sync::atomic::AtomicPtr<T>);
+
+    impl<T> AtomicPtr<T> {
+        pub const fn new(p: *mut T) -> Self {
+            AtomicPtr(std::sync::atomic::AtomicPtr::new(p))
+        }
+        pub fn load(&self, o: Ordering) -> *mut T {
+            yield_point(SITE_PTR_LOAD);
+            self.0.load(o)
+        }
+        pub fn store(&self, p: *mut T, o: Ordering) {
+            yield_point(SITE_PTR_STORE);
+            self.0.store(p, o)
+        }
+    }
+}
+
+pub mod arena {
+    pub use crate::atomic_arena::verif::*;
+}
